@@ -24,7 +24,9 @@ namespace detail
 	template<typename T>
 	GLM_FUNC_QUALIFIER T mask(T Bits)
 	{
-		return Bits >= static_cast<T>(sizeof(T) * 8) ? ~static_cast<T>(0) : (static_cast<T>(1) << Bits) - static_cast<T>(1);
+		// built in the unsigned type: (1 << (width - 1)) - 1 overflows a signed T
+		typedef typename make_unsigned<T>::type U;
+		return Bits >= static_cast<T>(sizeof(T) * 8) ? ~static_cast<T>(0) : static_cast<T>((static_cast<U>(1) << Bits) - static_cast<U>(1));
 	}
 
 	template<length_t L, typename T, qualifier Q, bool Aligned, bool EXEC>
@@ -71,7 +73,10 @@ namespace detail
 			if(Value == 0)
 				return -1;
 
-			return glm::bitCount(~Value & (Value - static_cast<genIUType>(1)));
+			// computed in the unsigned type: Value - 1 overflows for the most negative signed value
+			typedef typename make_unsigned<genIUType>::type genUType;
+			genUType const UValue = static_cast<genUType>(Value);
+			return glm::bitCount(static_cast<genUType>(~UValue & (UValue - static_cast<genUType>(1))));
 		}
 	};
 
